@@ -1,11 +1,13 @@
 //! Family binary (checks are registered here).
 
 mod c45;
+mod c46;
 mod c47;
+mod c47_probe;
 mod c48;
 mod c49;
 mod streams;
 
 fn main() {
-    mc::main_dispatch(&[("C45", c45::run, c45::META), ("C47", c47::run, c47::META), ("C48", c48::run, c48::META), ("C49", c49::run, c49::META)]);
+    mc::main_dispatch(&[("C45", c45::run, c45::META), ("C46", c46::run, c46::META), ("C47", c47::run, c47::META), ("C48", c48::run, c48::META), ("C49", c49::run, c49::META)]);
 }
